@@ -54,6 +54,8 @@ def grid(tier):
                 out.append(p)
         pts = out
     # the same points with namespace packages below the top-level package, for the fully dotted import form
+    lm = [p for p in pts if p["form"] in ("bare", "modattr", "modalias") and not p.get("by_object")]
+    pts += [dict(p, local_method=True) for p in lm[:: (2 if tier == "thorough" else 4)]]
     pts += [dict(p, namespace=True) for k_, p in enumerate(pts) if p["form"] == "fullattr" and p["d"] >= 2 and not p.get("by_object") and (tier == "thorough" or k_ % 2 == 0)]
     return pts
 
@@ -91,7 +93,9 @@ def render(pt, state):
         files["/".join(parts[:i]) + "/__init__.py"] = ""
     files["/".join(parts) + ".py"] = (
         "import dds\nimport vlog\n\nLV = %r\n\n\ndef lf():\n    vlog.rec('lf')\n    return ('lf', %d, LV)\n\n\n"
-        "@dds.data_function('/deep/ldata')\ndef ldata():\n    vlog.rec('ldata')\n    return ('ldata', lf())\n" % (state["lv"], state["ver"])
+        "@dds.data_function('/deep/ldata')\ndef ldata():\n    vlog.rec('ldata')\n    return ('ldata', lf())\n\n\n"
+        # (an unrelated function that carries the name under which the importing module aliases lf)
+        "def lf_al():\n    return ('unrelated', 'lf_al')\n" % (state["lv"], state["ver"])
     )
     files["/".join(parts[:-1] + ["pkgsib"]) + ".py"] = "import vlog\n\n\ndef psf():\n    vlog.rec('psf')\n    return ('psf', %d)\n" % state.get("pver", 0)
     files["other/__init__.py"] = ""
@@ -124,7 +128,9 @@ def render(pt, state):
         # (a function of this module carries the name that the leaf module uses for its tracked variable)
         "def LV():\n    return 'main.LV'\n\n\n"
         "@dds.data_function('/out')\ndef out():\n    vlog.rec('out')\n"
-        f"    return ('out', {call}, sib.sf(), nbm.nf(), psm.psf(), LV())[:5]\n\n\n"
+        + (f"    return ('out', {call}, sib.sf(), nbm.nf(), psm.psf(), LV())[:5]\n\n\n" if not pt.get("local_method") else
+           # the functions are only reached inside the arguments of method calls on a local variable
+           f"    rows = ['out']\n    rows.append({call})\n    rows.extend([sib.sf(), nbm.nf()])\n    rows.insert(len(rows), psm.psf())\n    return tuple(rows)\n\n\n") +
         "@dds.data_function('/out2')\ndef out2():\n    vlog.rec('out2')\n    return ('out2', sib.sdata())\n"
     )
     return files
@@ -253,7 +259,7 @@ def check_point(pt, ev=None, scratch=None):
         if "sdata" in r3["log"]:
             raise Violation(f"accepted={acc!r}: the body of the non-accepted data function ran before the refusal: {r3['log']}", pt)
         if ev is not None:
-            ev.case(pt, pt["d"] >= 3 or pt["count"] != 2, features=[f"depth{pt['d']}", f"count{pt['count']}"] + (["namespace-packages"] if pt.get("namespace") else []) + [ "edit:" + pt["edit"], "form:" + pt["form"], "accept-by-object" if pt.get("by_object") and not pt["lookalike"] else "accept-by-name",
+            ev.case(pt, pt["d"] >= 3 or pt["count"] != 2, features=[f"depth{pt['d']}", f"count{pt['count']}"] + (["namespace-packages"] if pt.get("namespace") else []) + (["reached-in-arguments-of-a-local-method-call"] if pt.get("local_method") else []) + [ "edit:" + pt["edit"], "form:" + pt["form"], "accept-by-object" if pt.get("by_object") and not pt["lookalike"] else "accept-by-name",
                                                                   "lookalike" if pt["lookalike"] else f"prefix{pt['k']}"])
     finally:
         if own:
